@@ -326,6 +326,8 @@ def leg_a_lookup(ctx, table):
     if tab != real:
         ctx.fail("T1", "numpy-functions", {"diff": sorted(tab ^ real)[:10]}, "the list of array-function-dispatched NumPy functions differs")
     shapes = [(1, []), (2, []), (1, ["kw0"]), (2, ["axis"]), (1, ["axis"]), (3, [])]
+    if ctx.quick:
+        shapes = shapes[:4]
     d = np.array([[1.0, 0.0, 2.0], [0.0, 3.0, 0.0]])
     n = 0
     for cn in CLASSES:
@@ -368,6 +370,30 @@ def leg_a_lookup(ctx, table):
         want = "notimplemented" if model == "notimplemented" else "handled"
         if got != want:
             ctx.fail("A", "model:arrayUfunc", case, f"model {model} implementation {got}")
+
+
+def leg_a_outer(ctx):
+    """the `outer` branch of __array_ufunc__: which operand goes where, with how many trailing axes — model vs the recorded
+    element-wise call"""
+    from sparse.numba_backend import _sparse_array as sa
+
+    rng_shapes = [[(3,), (4,)], [(2, 3), (4,)], [(3,), (2, 2)], [(2,), (3,), (2,)]]
+    outs = ctx.driver.run([["c17_outer_prepare", [len(sh) for sh in shapes]] for shapes in rng_shapes])
+    for shapes, o in zip(rng_shapes, outs):
+        for cn in CLASSES:
+            ops = [as_format(np.arange(1, int(np.prod(sh)) + 1, dtype=np.float64).reshape(sh) * (k + 2), cn) for k, sh in enumerate(shapes)]
+            seen = {}
+
+            def recorder(func, *inputs, **kw):
+                seen["shapes"] = [tuple(i.shape) for i in inputs]
+                return inputs[0]
+            with mock.patch.object(sa, "elemwise", recorder):
+                _, e = call(lambda: ops[0].__array_ufunc__(np.subtract, "outer", *ops))
+            case = {"class": cn, "shapes": [list(sh) for sh in shapes]}
+            ctx.case("A:outer", case, nontrivial=True)
+            want = [tuple(shapes[i]) + (1,) * t for i, t in o["ok"]]
+            if e is not None or seen.get("shapes") != want:
+                ctx.fail("A", "model:outerPrepare", case, f"model hands over {want}, implementation {seen.get('shapes')} {e!r}")
 
 
 def resolved_callable(x, pub_func):
@@ -652,8 +678,76 @@ def leg_c(ctx, rng, rounds):
                     "method": lambda: x.nonzero(), "sparse.nonzero": lambda: sparse.nonzero(x), "np.nonzero": lambda: np.nonzero(x),
                     "xp.nonzero": lambda: xp.nonzero(x), "sparse.where(x)": lambda: sparse.where(x), "np.where(x)": lambda: np.where(x)},
                     lambda: np.nonzero(d))
+        leg_c_outer(ctx, rng)
+        leg_c_nonfinite_fill(ctx, rng)
         if it % 10 == 0:
             core.log(f"C17 leg C {it}/{rounds}")
+
+
+OUTER_UFUNCS = [("subtract", operator.sub, "float"), ("greater", operator.gt, "float"), ("less_equal", operator.le, "float"),
+                ("floor_divide", operator.floordiv, "nonzero"), ("power", operator.pow, "small"), ("left_shift", operator.lshift, "int"),
+                ("multiply", operator.mul, "float")]
+
+
+def leg_c_outer(ctx, rng):
+    """ufunc.outer(x, y) — through __array_ufunc__(…, "outer", …) — against the operator spelling x[..., None] op y and NumPy,
+    for NON-commutative ufuncs (operand order is observable), every format, sparse and dense partners"""
+    import sparse
+
+    for name, opf, kind in OUTER_UFUNCS:
+        uf = getattr(np, name)
+        for shx, shy in [((4,), (3,)), ((2, 3), (3,))]:
+            if kind == "int":
+                d, e = rng.integers(0, 4, size=shx), rng.integers(0, 3, size=shy)
+            elif kind == "small":
+                d, e = rng.integers(0, 3, size=shx).astype(float), rng.integers(0, 3, size=shy).astype(float)
+            elif kind == "nonzero":
+                d, e = rng.integers(0, 5, size=shx).astype(float), rng.integers(1, 4, size=shy).astype(float)
+            else:
+                d, e = make(rng, shx), make(rng, shy)
+            for cn in CLASSES:
+                x, y = as_format(d, cn), as_format(e, cn)
+                idx = (Ellipsis,) + (None,) * e.ndim
+                c = {"class": cn, "op": name + ".outer", "x": d.tolist(), "y": e.tolist()}
+                spl = {"np.ufunc.outer(x, y)": lambda: uf.outer(x, y), "sparse.ufunc.outer(x, y)": lambda: getattr(sparse, SP_NAME.get(name, name)).outer(x, y)}
+                if name == "multiply":  # a dense partner keeps the result sparse only if func(fill, dense) is constant (C07's mix rule)
+                    spl["np.ufunc.outer(x, dense y)"] = lambda: uf.outer(x, e)
+                    spl["np.ufunc.outer(dense x, y)"] = lambda: uf.outer(d, y)
+                if cn != "DOK":
+                    spl["x[..., None] op y"] = lambda: opf(x[idx], y)
+                    spl["np.ufunc(x[..., None], y)"] = lambda: uf(x[idx], y)
+                agree(ctx, f"C:outer:{name}", c, spl, lambda: uf.outer(d, e), must_be_sparse=False)
+
+
+SP_NAME = {"power": "pow", "left_shift": "bitwise_left_shift"}
+FILL_TESTS = ["isinf", "isnan", "isfinite", "isposinf", "isneginf", "sign", "negative", "abs"]
+
+
+def leg_c_nonfinite_fill(ctx, rng):
+    """element-wise tests and sign functions on operands whose FILL is +inf / -inf / NaN (and 2): every spelling, every format.
+    The method / namespace spellings compute the result's fill value themselves; the ufunc spelling gets it from elemwise."""
+    import sparse
+
+    for fk, fv in (("+inf", np.inf), ("-inf", -np.inf), ("nan", np.nan), ("2", 2.0)):
+        shp = (3, 4)
+        mask = rng.random(size=shp) < 0.5
+        mask.flat[0], mask.flat[1] = True, False
+        vals = rng.choice(np.array([-2.0, 1.0, 3.0, np.inf, -np.inf, np.nan]), size=shp)
+        d = np.where(mask, vals, fv)
+        for cn in CLASSES:
+            c0 = sparse.COO.from_numpy(d, fill_value=fv)
+            x = c0 if cn == "COO" else sparse.GCXS.from_coo(c0) if cn == "GCXS" else sparse.DOK.from_coo(c0)
+            xp = x.__array_namespace__()
+            for name in FILL_TESTS:
+                npf = getattr(np, {"abs": "absolute"}.get(name, name))
+                spl = {"np.f(x)": lambda: npf(x), "sparse.f(x)": lambda: getattr(sparse, name)(x), "xp.f(x)": lambda: getattr(xp, name)(x)}
+                if hasattr(type(x), name):
+                    spl["x.f()"] = lambda: getattr(x, name)()
+                if name == "abs":
+                    spl["abs(x)"] = lambda: abs(x)
+                if name == "negative":
+                    spl["-x"] = lambda: -x
+                agree(ctx, f"C:fill:{name}", {"class": cn, "op": name, "fill": fk, "x": d.tolist()}, spl, lambda: npf(d))
 
 
 # values for NumPy-style probes that can be replayed on the real code
@@ -674,10 +768,12 @@ def leg_c_numpy_style(ctx, violations, table):
         x = as_format(d, cn)
         probes = ctx.driver.run([["c17_probes", cn]])[0]["ok"]
         bad = {(p["pub"], p["param"], json.dumps(p["way"], sort_keys=True)) for p in violations[cn]}
-        for p in probes:
+        for pi, p in enumerate(probes):
             pub, param, way = p["pub"], p["param"], p["way"]
             if way == {"pos": 0}:
                 continue
+            if ctx.quick and cn != "COO" and p["result"] in ("accepted", "catchAll") and (pi + ctx.seed) % 3:
+                continue  # quick tier: the second format replays every listed probe and a third of the accepted ones
             s = sigs[pub]
             f = getattr(np, pub.split(".", 1)[1])
             positional = s["posonly"] + s["pos"]
@@ -833,7 +929,7 @@ def run(ctx):
     reports = {c: o["ok"] for c, o in zip(CLASSES, outs[1:])}
     ctx.notes["spellings_agree"] = {c: {k: r[k] for k in ("fullOk", "partialOk", "coreBad", "kwBad", "dropped", "kwIncons", "ufuncOk", "probes", "witnessActive", "indexesFaithful")}
                                     | {"nep18_violations": len(r["violations"])} for c, r in reports.items()}
-    ctx.notes["partial"] = {"spellings_agree": "ExcludedNep18 (argument binding at the by-name target), ExcludedDropped (wrapper drops out)"
+    ctx.notes["partial"] = {"spellings_agree": "ExcludedNep18 (argument binding at the by-name target)"
                             if not all(r["fullOk"] for r in reports.values()) else "none: the full statement holds on this tree"}
     ctx.notes["table"] = {"entries": len(table["entries"]), "namespace": len(table["namespace"]), "numpy_functions": len(table["numpy_functions"]),
                           "numpy_sigs": len(table["numpy_sigs"]), "operators": len(table["operators"])}
@@ -843,9 +939,10 @@ def run(ctx):
     rng = gen.rng_for(ctx.seed, PID)
     t1_validate(ctx, table)
     leg_a_lookup(ctx, table)
+    leg_a_outer(ctx)
     violations = leg_a_probes(ctx, table)
     replay_witnesses(ctx, reports)
-    leg_c(ctx, rng, 4 if ctx.quick else 120)
+    leg_c(ctx, rng, 2 if ctx.quick else 120)
     leg_c_numpy_style(ctx, violations, table)
     leg_c_unimplemented(ctx, table)
     ctx.cov["rule"] = ("T1: every row of the generated dispatch table against introspection and recorded forwarding calls; leg A: the lookup model "
